@@ -8,11 +8,11 @@ HARNESS = "c02"
 DRIVER = "c02"
 PROPS_MODULE = "OxyModel.Props.C02"
 AUDIT = "OxyModel/Audit/C02.lean"
-THEOREMS = ["C02.C02_refines_set", "C02.C02_refines_set_rebalancer", "C02.C02_stored_url_is_first_insertion",
+THEOREMS = ["C02.C02_refines_set", "C02.C02_refines_set_rebalancer", "C02.C02_selected_is_member",
             "C02.C02_removed_never_selected", "C02.C02_added_within_rotation", "C02.C02_remove_unknown_noop",
             "C02.C02_empty_is_error", "C02.C02_zero_is_error_partial", "C02.C02_zero_is_error_counterexample",
-            "C02.C02_selected_is_member", "C02.C02_handout_fresh", "C02.C02_downstream_mutation_noop"]
-RACE = False
+            "C02.C02_handout_fresh", "C02.C02_downstream_mutation_noop"]
+RACE = True
 RULE = ("scenario = random history of upsert/update/remove (repeated adds, unknown removes, negative weights) over 3-6 URL strings "
         "drawn from an alphabet in which distinct strings share a (scheme,host,path) key, through a RoundRobin or a Rebalancer over a "
         "RoundRobin, sticky or not, interleaved with NextServer calls and real ServeHTTP requests whose downstream handler may rewrite "
@@ -82,6 +82,8 @@ def gen(rng, tier):
                 lines.append("servers")
             elif r < 0.47:
                 lines.append("weight %s %s %s" % rng.choice(keys))
+            elif r < 0.49:
+                lines += ["race %d %d" % (rng.randint(0, 40), rng.randint(0, 40)), "servers"]
             elif r < 0.62:
                 lines += ["next"] * rng.randint(1, 12)
             elif r < 0.67 and via == "rb":
@@ -213,6 +215,8 @@ def monitor(ops, outs):
         op = f[0]
         members = ref.strs()
         stuck = False
+        if o == "bad-op":
+            continue            # ill-formed line: rejected by the protocol, not an operation
         if op == "upsert":
             if info.get("neg"):
                 if o == "ok":
@@ -233,6 +237,9 @@ def monitor(ops, outs):
             exp = str(ref.pool[k][1]) if k in ref.pool else "none"
             if o != exp:
                 bad.append("membership: ServerWeight(%s)=%s, configured %s" % (k, o, exp))
+        elif op == "race":
+            if o != "race ok":
+                bad.append("race: administration calls racing with requests: %s" % o)
         elif op in ("next", "serve"):
             ws = [v[1] for v in ref.pool.values()]
             if op == "serve" and ref.sticky:
@@ -263,8 +270,8 @@ def monitor(ops, outs):
                     # pinned requests are forwarded; an error here is a lost member
                     bad.append("sticky-lost: cookie names a member but the request failed: %s" % o)
         # ---- added server is selected within one full rotation -------------------------------------------------
-        if op in ("upsert", "remove") and o == "ok":
-            run, run_ok = [], True
+        if (op in ("upsert", "remove") and o == "ok") or op == "race":
+            run, run_ok = [], True       # every successful change resets the iterator (and, behind the rebalancer, the weights)
             eff = {v[0]: v[1] for v in ref.pool.values()}
         elif op == "weights":
             run, run_ok = [], o.startswith("weights")
@@ -290,9 +297,9 @@ def monitor(ops, outs):
                     if w > 0 and u not in win:
                         bad.append("rotation: %s (weight %d) was not selected in %d consecutive selections (one full rotation of %s)" % (u, w, W, eff))
                         break
-        if bad:
-            break
-    return bad
+        if any(not m.startswith("zero-sticky:") for m in bad):
+            break               # (the recorded finding does not end the scenario: anything after it is still judged)
+    return bad[:20]
 
 
 def nontrivial(ops, outs):
@@ -311,7 +318,7 @@ def describe(ops, outs, hist):
     for ref, f, o, info in walk(ops, outs):
         hist["op:" + f[0]] += 1
         hist["via:" + ref.via] += 0
-        if f[0] == "remove":
+        if f[0] == "remove" and o != "bad-op":
             hist["remove:" + ("known" if info.get("known") else "unknown")] += 1
         if f[0] == "upsert":
             hist["upsert:" + ("neg" if info.get("neg") else "existing" if info.get("known") else "new")] += 1
